@@ -76,6 +76,17 @@ CHECKS = {
    note="Virtual time: filesystem and scheduling latency are zero, so 'live lock never stale' is claimed for an ideal scheduler only.",
    technique="symbolic execution of go/ssa on a cooperative scheduler with a virtual clock (bounded model checking), native replay",
    design="5/C17"),
+
+ "C12": dict(
+   text="Bounded model checking over SCHEDULES of the real RunActionWithTimeout, RunActionWithTimeoutAndContext/CancelStore (with the real context package), Parallelise and CancelFunctionStore on the engine's cooperative scheduler: every interleaving with at most 2 preemptions (1 for the context runner in the quick tier) at channel/select/lock/atomic/timer operations, both outcomes of selects with several ready cases, timers allowed to fire at any channel operation, action completing at {0,T-1,T,T+1,5T}, failing or not, honouring its stop signal at once or late, parent context live/cancelled before/during: the runner always returns (deadlock = violation), returns the action's own result or the timeout/cancelled kind only once the action saw its stop signal, the action's context is done on every exit; Parallelise invokes once per argument and returns the multiset or an invocation error; a Cancel invokes every function registered before it began. One known-finding region (RunActionWithTimeout blocks when the timer case is taken after the action finished) is recorded.",
+   note="Schedules are decision sequences of the engine (re-executable deterministically) but not natively replayable; sequentially consistent memory; real timer latency outside.",
+   technique="symbolic execution of go/ssa on a cooperative scheduler, DFS over scheduling decisions with a preemption bound (bounded model checking)",
+   design="5/C12"),
+ "C13": dict(
+   text="Bounded model checking over SCHEDULES of the library's own sinks and composites: the plain string logger (StringWriter through the real log.Logger) with two producers on the same or on the output and error streams, NewCombinedLoggers with Log || LogError and Log || Append: every interleaving with at most 2 preemptions at lock/atomic/channel operations and INSIDE every strings.Builder append and member append (modelled as non-atomic read-modify-write): every message reaches the sink exactly once and intact, composites deliver every message to every member exactly once. The check found the RLock-for-a-write defect of StringWriter, which is fixed.",
+   note="Third-party adapters (zap, logrus, hclog, slog, logr, diode ring buffer, file/JSON loggers) are not encoded; memory is sequentially consistent; not natively replayable.",
+   technique="symbolic execution of go/ssa on a cooperative scheduler, DFS over scheduling decisions with a preemption bound (bounded model checking)",
+   design="5/C13"),
 }
 NA = {}
 def main():
